@@ -154,6 +154,50 @@ func scRandom(w *world, rng *vh.Rng, idx int) *scenario {
 	return sc
 }
 
+// A side branch with a block that does not execute (its header claims a state root execution does not reach):
+// the reorganisation triggered by the branch's last block fails in the roll-forward, after the blocks below the
+// bad one have been executed and committed (state bulks, receipts); one more block on the branch makes it fail
+// again; then the main chain grows. badAt = position of the bad block on the branch (0 = its first block).
+func scBadReorg(w *world, rng *vh.Rng, fork, depth, badAt int, mode txMode) *scenario {
+	sc := newScenario(w, fmt.Sprintf("badreorg/fork=%d,depth=%d,bad=%d,tx=%d", fork, depth, badAt, mode))
+	main := sc.chain(sc.blocks[1], fork+depth, rng, txFresh, 0, nil)
+	from := sc.blocks[1]
+	if fork > 0 {
+		from = main[fork-1]
+	}
+	var side []*sblock
+	cur := from
+	for i := 0; i < depth+2; i++ {
+		var specs []txSpec
+		if mode != txNone {
+			specs = sc.freshSpecs(cur, rng, 1+rng.Intn(2), 3)
+		}
+		cur = sc.childX(cur, specs, i == badAt)
+		side = append(side, cur)
+	}
+	o := ids(main)
+	o = append(o, ids(side)...)
+	more := sc.chain(main[len(main)-1], 1, rng, txFresh, 4, nil)
+	o = append(o, ids(more)...)
+	sc.order = o
+	return sc
+}
+
+// A block that does not execute arrives on the tip (rejected, nothing written), then its valid sibling; with
+// orphan=true the bad block first waits in the orphan pool behind its parent.
+func scBadTip(w *world, rng *vh.Rng, orphan bool) *scenario {
+	sc := newScenario(w, fmt.Sprintf("badtip/orphan=%v", orphan))
+	a := sc.chain(sc.blocks[1], 2, rng, txFresh, 0, nil)
+	bad := sc.childX(a[1], sc.freshSpecs(a[1], rng, 1, 5), true)
+	good := sc.chain(a[1], 2, rng, txFresh, 6, nil)
+	if orphan {
+		sc.order = []int{a[0].id, bad.id, a[1].id, good[0].id, good[1].id}
+	} else {
+		sc.order = []int{a[0].id, a[1].id, bad.id, good[0].id, good[1].id}
+	}
+	return sc
+}
+
 func scenarios(w *world, run *vh.Run) []*scenario {
 	rng := run.Rng
 	var out []*scenario
@@ -169,7 +213,13 @@ func scenarios(w *world, run *vh.Run) []*scenario {
 	out = append(out, scReorg(w, rng, 1, 2, 1+rng.Intn(2), txFresh, true, 0))
 	out = append(out, scReorg(w, rng, 0, 1+rng.Intn(2), 1, txShared, false, 1))
 	out = append(out, scRandom(w, rng, 0))
+	out = append(out, scBadReorg(w, rng, rng.Intn(2), 1+rng.Intn(2), 1, txFresh))
+	out = append(out, scBadTip(w, rng, rng.Bool()))
 	if run.Thorough() {
+		out = append(out, scBadReorg(w, rng, 1, 2, 0, txFresh))
+		out = append(out, scBadReorg(w, rng, 0, 3, 2, txNone))
+		out = append(out, scBadTip(w, rng, true))
+		out = append(out, scBadTip(w, rng, false))
 		out = append(out, scLinear(w, rng, 4, txMixed))
 		out = append(out, scOrphan(w, rng, 5, txNone))
 		for d := 1; d <= 4; d++ {
